@@ -109,7 +109,7 @@ def replay(ctx, case):
 MANIFEST = dict(
     text=("Proof (FULL): for every n>=1, every placement, every pattern and every memory state the gate list of the model leaves amplitude cos(pi d/2n) a_k on aux=0 and "
           "-i sin(pi d/2n) a_k on aux=1 (C17_pqm_amplitudes, classical pattern; C17_pqm_quantum, pattern in a quantum register: on each pattern branch the circuit acts as the classical "
-          "one, branches never mix); hence P(aux=0,k) = |a_k|^2 cos^2 and the memory marginal is unchanged (C17_probabilities). Tie: the gate list appended by pqm.initialize is compared "
+          "one, branches never mix); hence P(aux=0,k) = |a_k|^2 cos^2 and the memory marginal is unchanged (C17_probabilities; C17_probabilities_quantum for the quantum pattern register: P(aux=0,p,k) = |a_{p,k}|^2 cos^2(pi d(p,k)/2n), joint (pattern, memory) marginal unchanged). Tie: the gate list appended by pqm.initialize is compared "
           "inside Coq with PqmModel.pqm_gates / pqm_gates_q on placements that satisfy the theorems' hypotheses, n<=12/20. Exact marginals are also evaluated numerically."),
     note="Modelled, not verified: Qiskit h/x/cx/p/cp matrices (validated per run).",
     technique="Coq proof (diagonal-layer semantics, induction on n; branch-wise agreement for the quantum pattern) + gate-list correspondence (vm_compute) + exact marginal evaluation",
